@@ -50,6 +50,13 @@ def cases(rng, tier):
                 if free:
                     c = rng.choice(free)
                     cs.append({"kind": "matrix", "n": n, "e": ("mul", ("dgr", ("c", c, g)), ("c", c, g))})
+    # ... and of 8-9 bits on basis states with every selected qubit set (the count passes 8)
+    for kind in gen.NOPARAM1:
+        for n in (8, 9):
+            g = (kind, (1 << n) - 1)
+            for j in ((1 << n) - 1, (1 << n) - 2):
+                cs.append({"kind": "applybasis", "n": n, "j": j, "e": ("dgr", g)})
+                cs.append({"kind": "applybasis", "n": n, "j": j, "e": ("mul", ("dgr", g), g)})
     # angle sweep for the rotation daggers
     for kind in gen.PARAM1 + gen.PARAM2:
         m = 0b10 if kind in gen.PARAM1 else 0b101
